@@ -187,8 +187,9 @@ def merge_transcriptions_and_logits(transcription_parts, logits_parts):
 
     for transcription, logits in zip(transcription_parts[1:], logits_parts_shrinked[1:]):
         overlap = find_best_overlap(result_transcription, transcription)
-        result_transcription = result_transcription[:-overlap // 2] + transcription[overlap // 2:]
-        result_logits = np.concatenate([result_logits[:-overlap // 2], logits[overlap // 2:]], axis=0)
+        keep = len(result_transcription) - (overlap + 1) // 2
+        result_transcription = result_transcription[:keep] + transcription[overlap // 2:]
+        result_logits = np.concatenate([result_logits[:keep], logits[overlap // 2:]], axis=0)
 
     return result_transcription, result_logits
 
